@@ -333,6 +333,16 @@ func run(c *core.Ctx) {
 	// 6. large sets (oracle-heavy, model-sampled)
 	largeStream(c)
 
+	// 7. the nil maps.Set (zero value of the map type) as receiver and as argument of every call that does
+	//    not write to it: it must behave as the empty set. (Add on a nil map panics in Go - assignment to an
+	//    entry in a nil map - as does a method call through a nil interface: both outside the property.)
+	nilStream(c)
+
+	c.CountN("map_paths_compared_with_model", pathsCompared)
+	if !c.NoModel && pathsCompared == 0 {
+		c.Unobservable("no sync2.Map path (lock / promote / expunge hook labels) was recorded for the model: the layout machine of SyncMap/Seq.v is not being validated")
+	}
+
 	// 5. receiver = argument (outside the model: oracle only)
 	for m := 0; m < 16; m++ {
 		for _, ia := range impls {
@@ -352,6 +362,55 @@ func run(c *core.Ctx) {
 			}
 		}
 	}
+}
+
+func nilStream(c *core.Ctx) {
+	u := []int{0, 1, 2}
+	n := 0
+	for _, other := range []string{"M", "S", "N"} {
+		for mask := 0; mask < 8; mask += 7 { // the other operand: empty or {0,1,2}
+			for _, op := range binops {
+				for _, nilIsReceiver := range []bool{true, false} {
+					if nilIsReceiver && op == "addset" && mask != 0 {
+						continue // would Add to the nil map: panics by Go semantics, outside the property
+					}
+					ops := []Op{{K: "new", Impl: "N"}}
+					ops = append(ops, Op{K: "len", H: 0}, Op{K: "has", H: 0, V: 1}, Op{K: "remove", H: 0, V: 1})
+					oo, _ := build(other, 1, u, subset(u, mask), n%nProfiles)
+					if other == "N" {
+						if mask != 0 {
+							continue
+						}
+						oo = []Op{{K: "new", Impl: "N"}}
+					}
+					ops = append(ops, oo...)
+					h, g := 0, 1
+					if !nilIsReceiver {
+						h, g = 1, 0
+					}
+					ops = append(ops, Op{K: op, H: h, G: g, Main: true})
+					ops = append(ops, reread(0, u)...)
+					ops = append(ops, Op{K: "range", H: 0, V: 1}, Op{K: "clone", H: 0})
+					ops = append(ops, reread(1, u)...)
+					last := 2
+					switch op {
+					case "union", "intersect", "setdiff", "symdiff":
+						ops = append(ops, reread(2, u)...)
+						ops = append(ops, Op{K: "add", H: 2, V: 7}, Op{K: "len", H: 0}, Op{K: "len", H: 1}) // the result is a real, writable set
+						last = 3
+					}
+					ops = append(ops, Op{K: "add", H: last, V: 5}, Op{K: "len", H: last}, Op{K: "len", H: 0}) // so is the clone of the nil set
+					exec(c, Case{Tag: fmt.Sprintf("nil %s %s receiver=%v", other, op, nilIsReceiver), Ops: ops, Emit: true})
+					n++
+				}
+			}
+		}
+	}
+	// documented Go semantics, not part of the property: Add on the nil map panics
+	if core.Try(func() { maps.Set[int](nil).Add(1) }) != "" {
+		c.Count("nil_maps_set_add_panics")
+	}
+	c.Note(fmt.Sprintf("nil maps.Set: %d cases (receiver and argument of every non-writing call, against empty / non-empty sets of both implementations and itself)", n))
 }
 
 // ---- large sets: sizes around every power of two up to 4096 ----
@@ -653,8 +712,11 @@ func randomHistory(c *core.Ctx) Case {
 // ---------------------------------------------------------------- execution
 
 func newSet(impl string) sets.Set[int] {
-	if impl == "S" {
+	switch impl {
+	case "S":
 		return new(sync2.Set[int])
+	case "N": // the nil map: the zero value of maps.Set, usable for everything except Add / a gaining AddSet
+		return maps.Set[int](nil)
 	}
 	return make(maps.Set[int])
 }
@@ -686,28 +748,38 @@ func enumOK(l []int, ref map[int]bool) string {
 	return ""
 }
 
-// parse "{1 2 3}" into tokens; ok=false if the text is not of that shape
-func parseString(s string) (toks []string, vals []int, ok bool) {
-	if len(s) < 2 || s[0] != '{' || s[len(s)-1] != '}' {
-		return nil, nil, false
-	}
-	toks = append(toks, "TOpen")
-	body := s[1 : len(s)-1]
-	if body != "" {
-		for i, f := range strings.Split(body, " ") {
-			v, err := strconv.Atoi(f)
-			if err != nil || strconv.Itoa(v) != f {
-				return nil, nil, false
+// parseString reads the text of String(). The property fixes only that the text
+// agrees with the membership: the integers are extracted wherever they stand
+// (a '-' directly before a digit and not directly after one is a sign), braces
+// and separators are not interpreted. canonical reports whether the text has
+// the shape "{v v v}" of the present implementation (statistics only).
+func parseString(s string) (vals []int, canonical bool, ok bool) {
+	ok = true
+	for i := 0; i < len(s); {
+		ch := s[i]
+		isDigit := ch >= '0' && ch <= '9'
+		if isDigit || (ch == '-' && i+1 < len(s) && s[i+1] >= '0' && s[i+1] <= '9' && (i == 0 || s[i-1] < '0' || s[i-1] > '9')) {
+			j := i + 1
+			for j < len(s) && s[j] >= '0' && s[j] <= '9' {
+				j++
 			}
-			if i > 0 {
-				toks = append(toks, "TSpace")
+			v, err := strconv.Atoi(s[i:j])
+			if err != nil {
+				ok = false // a number that is not an int: cannot be a member
+			} else {
+				vals = append(vals, v)
 			}
-			toks = append(toks, "TVal "+core.Z(v))
-			vals = append(vals, v)
+			i = j
+			continue
 		}
+		i++
 	}
-	toks = append(toks, "TClose")
-	return toks, vals, true
+	parts := make([]string, len(vals))
+	for i, v := range vals {
+		parts[i] = strconv.Itoa(v)
+	}
+	canonical = s == "{"+strings.Join(parts, " ")+"}"
+	return
 }
 
 func pairsTerm(ps []sets.Product[int, int]) string {
@@ -753,6 +825,9 @@ func expand(ops []Op) []Op {
 	return out
 }
 
+// pathsCompared counts the calls whose Map paths were recorded for the model (see run: must not stay 0).
+var pathsCompared int
+
 func exec(c *core.Ctx, cs Case) {
 	c.Begin(cs)
 	c.Count("cases_" + strings.SplitN(cs.Tag, " ", 2)[0])
@@ -764,9 +839,23 @@ func exec(c *core.Ctx, cs Case) {
 	nontrivial := false
 	// which slow paths of sync2.Map the real code takes during "main" calls
 	var labels map[string]bool
+	// which paths a single-Map-call method takes (compared with the model's prediction): bit 1 mutex taken,
+	// bit 2 dirty map promoted, bit 4 nil entry expunged
+	recording, mask := false, 0
+	clean := map[int]bool{} // handles whose internal layout is determined by the recorded history (see below)
 	sync2.VerifHook = func(label string, _ any, _ any) {
 		if labels != nil {
 			labels[label] = true
+		}
+		if recording {
+			switch label {
+			case "Load.lock", "LoadOrStore.lock", "LoadAndDelete.lock", "Range.lock":
+				mask |= 1
+			case "miss.store", "Range.promote":
+				mask |= 2
+			case "expunge.cas":
+				mask |= 4
+			}
 		}
 	}
 	defer func() { sync2.VerifHook = nil }()
@@ -803,10 +892,35 @@ func exec(c *core.Ctx, cs Case) {
 			}
 		}
 		var term, obs, extra string
+		switch op.K {
+		case "add", "remove", "has", "len", "slice", "string", "range":
+			recording = emit && impls[op.H] == "S" && clean[op.H]
+		case "new":
+			clean[len(hs)] = true
+			recording = false
+		case "fromslice", "fromkeys", "fromvalues":
+			recording = false
+		default:
+			// Every other method makes several Map calls on its operands. Which calls, how often and in which
+			// order is an implementation choice of set.go / sets.go that no output shows (e.g. the iteration
+			// order of the other operand decides when the misses add up to a promotion), so the layout of the
+			// operands is from here on not determined by the recorded history: their paths are no longer
+			// compared (their outputs still are). Handles made by these methods never are.
+			clean[op.H] = false
+			if op.K != "clone" {
+				clean[op.G] = false
+			}
+			recording = false
+		}
+		mask = 0
 		kind := core.Try(func() {
 			switch op.K {
 			case "new":
 				hs = append(hs, newSet(op.Impl))
+				if op.Impl == "N" { // a nil maps.Set is the empty maps.Set of the model
+					op.Impl = "M"
+					c.Count("nil_maps_set_handles")
+				}
 				impls = append(impls, op.Impl)
 				refs = append(refs, map[int]bool{})
 				term, obs = "CNew I"+op.Impl, "VUnit"
@@ -918,14 +1032,21 @@ func exec(c *core.Ctx, cs Case) {
 				}
 			case "string":
 				got := hs[op.H].String()
-				toks, vals, ok := parseString(got)
+				vals, canonical, ok := parseString(got)
+				if !canonical {
+					c.Count("string_not_in_brace_space_form")
+				}
 				if !ok {
-					fail(i, op, "String is not of the form {v v v}", fmt.Sprintf("%q", got))
+					fail(i, op, "String contains a number that is not an int", fmt.Sprintf("%q", got))
 				} else if msg := enumOK(vals, refs[op.H]); msg != "" {
 					fail(i, op, "String "+msg, fmt.Sprintf("String()=%q, members %v", got, sorted(refs[op.H])))
 				}
 				term = "-"
 				if emit {
+					toks := make([]string, len(vals))
+					for k, v := range vals {
+						toks[k] = "TVal " + core.Z(v)
+					}
 					term, obs = fmt.Sprintf("CString %d", op.H), "VToks "+core.List(toks)
 				}
 			case "range":
@@ -1035,7 +1156,7 @@ func exec(c *core.Ctx, cs Case) {
 				// follow); this Slice is a call on the new handle, recorded for the model too
 				got := r.Slice()
 				if emit {
-					extra = fmt.Sprintf("(CSlice %d, VList %s)", len(hs), core.ZList(got))
+					extra = fmt.Sprintf("(CSlice %d, VList %s, (-1))", len(hs), core.ZList(got))
 				}
 				if enumOK(got, ref) != "" {
 					sort.Ints(got)
@@ -1089,7 +1210,13 @@ func exec(c *core.Ctx, cs Case) {
 			return
 		}
 		if emit {
-			terms = append(terms, "("+term+", "+obs+")")
+			paths := "(-1)"
+			if recording {
+				paths = strconv.Itoa(mask)
+				pathsCompared++
+			}
+			recording = false
+			terms = append(terms, "("+term+", "+obs+", "+paths+")")
 			if extra != "" {
 				terms = append(terms, extra)
 			}
